@@ -190,13 +190,13 @@ def _apply_unit(repo: str, header: str, body_lines: List[str], tpl_name: str) ->
                     raise ExtractError("bad rw rule in %s/%s: %s" % (tpl_name, uid, d))
                 p, r = rule.split("==>", 1)
                 sections.append(("rw?" if optional else "rw", p.strip(), [r.strip()]))
-            elif d.startswith("lift:"):
+            elif d.startswith("lift:") or d.startswith("lift?:"):
                 rule = d.split(":", 1)[1]
                 if "==>" not in rule or "~~>" not in rule:
                     raise ExtractError("bad lift rule in %s/%s: %s" % (tpl_name, uid, d))
                 p, rest = rule.split("==>", 1)
                 r, fn_txt = rest.split("~~>", 1)
-                cur = ("lift", p.strip(), [r.strip(), fn_txt.strip()])
+                cur = ("lift?" if d.startswith("lift?:") else "lift", p.strip(), [r.strip(), fn_txt.strip()])
                 sections.append(cur)
             elif d.startswith("sig:"):
                 sections.append(("sig", d[4:].strip(), []))
@@ -324,8 +324,11 @@ def _apply_unit(repo: str, header: str, body_lines: List[str], tpl_name: str) ->
                 info.rewrites.append(("for-to-while loop %s (optional): not applicable" % arg, 0))
     lifted: List[str] = []
     for kind, arg, lines in sections:
-        if kind == "lift":
+        if kind in ("lift", "lift?"):
             ms = rt.find_matches(body, arg)
+            if not ms and kind == "lift?":
+                info.rewrites.append(("closure-lift (optional): " + arg, 0))
+                continue
             if not ms:
                 raise ExtractError("%s: closure-lift pattern not found in %s (%s): %s" % (uid, info.item, info.file, arg))
             fn_txt = lines[1] + "\n" + "\n".join(lines[2:])
@@ -367,6 +370,13 @@ def _apply_unit(repo: str, header: str, body_lines: List[str], tpl_name: str) ->
             if len(heads) < k:
                 raise ExtractError("%s: loop %d not found in %s (has %d loops)" % (uid, k, info.item, len(heads)))
             inserts.append((heads[k - 1][0], "\n" + txt + "\n"))
+            # Verus parses a block that directly follows a loop with clauses as part of the
+            # clauses: separate a following bare block with an empty statement
+            toks_l = rt.tokenize(body)
+            bi_l = next(i for i, t in enumerate(toks_l) if t.start == heads[k - 1][0])
+            ci_l = rt.match_close(toks_l, bi_l)
+            if ci_l + 1 < len(toks_l) and toks_l[ci_l + 1].text == "{":
+                inserts.append((toks_l[ci_l].end, ";"))
         elif kind == "after-loop":
             heads = rt.loop_headers(body)
             k = int(arg)
